@@ -134,7 +134,7 @@ func init() {
 		PKCE: 10, Bad: 12, ShortLives: 25, MinOps: 8, MaxOps: 28, Smuggle: 10, Hybrid: 12, Implicit: 8, JWT: 15, ClientLife: 30}
 	mk := func(id string, f func(p *Profile)) Profile { p := base; p.Name = id; f(&p); return p }
 	common := "seeded histories over authorize/redeem/refresh/revoke/introspect/advance/setclient with 2-4 clients, every access/refresh token probed after every step; distinct by operation list; non-trivial = "
-	regHist(&histProp{id: "C01", profile: mk("C01", func(p *Profile) {}), module: "Cases.Monitors", checkFn: "check_C01", quickN: 500, thoroN: 5000,
+	regHist(&histProp{id: "C01", profile: mk("C01", func(p *Profile) { p.RawStore = 15 }), module: "Cases.Monitors", checkFn: "check_C01", quickN: 500, thoroN: 5000,
 		nontriv: func(h *HHistory, obs []HObs) bool { return hasReplay(h, obs, "redeem") },
 		rule:    common + "contains a second presentation of a code that was redeemed successfully"})
 	regHist(&histProp{id: "C02", profile: mk("C02", func(p *Profile) { p.WRedeem = 40; p.WRefresh = 8; p.Bad = 35; p.ShortLives = 60; p.Smuggle = 40; p.WAdvance = 14 }),
@@ -163,7 +163,7 @@ func init() {
 			return false
 		},
 		rule: common + "contains at least two redemption attempts on one code under randomised PKCE enforcement flags"})
-	regHist(&histProp{id: "C04", profile: mk("C04", func(p *Profile) { p.WRefresh = 40; p.WRedeem = 18; p.MaxOps = 36 }),
+	regHist(&histProp{id: "C04", profile: mk("C04", func(p *Profile) { p.WRefresh = 40; p.WRedeem = 18; p.MaxOps = 36; p.RawStore = 15 }),
 		module: "Cases.Monitors", checkFn: "check_C04", quickN: 500, thoroN: 5000,
 		nontriv: func(h *HHistory, obs []HObs) bool { return hasReplay(h, obs, "refresh") },
 		rule:    common + "contains a second presentation of a refresh token that was exchanged successfully"})
@@ -200,7 +200,7 @@ func init() {
 			return false
 		},
 		rule: common + "contains a request with scopes/audience that an endpoint refused as not covered (invalid_scope / invalid_request)"})
-	regHist(&histProp{id: "C07", profile: mk("C07", func(p *Profile) { p.ShortLives = 85; p.WAdvance = 26; p.WIntrospect = 8; p.ClientLife = 60; p.WSetClient = 5; p.WPassword = 8; p.WClientCreds = 4 }),
+	regHist(&histProp{id: "C07", profile: mk("C07", func(p *Profile) { p.ShortLives = 85; p.WAdvance = 26; p.WIntrospect = 8; p.ClientLife = 60; p.WSetClient = 5; p.WPassword = 8; p.WClientCreds = 4; p.JWT = 30 }),
 		module: "Cases.Monitors", checkFn: "check_C07", quickN: 500, thoroN: 5000,
 		nontriv: expiryObserved,
 		rule:    common + "some token is active before a clock advance and inactive right after it (an expiry was crossed)"})
